@@ -19,8 +19,8 @@ def showLNode (n : LNode) : String :=
   nameString n.ctor ++ "{" ++ ",".intercalate (n.fields.map (fun p => (if p.1 == 0 then "0" else nameString p.1) ++ "=" ++ showLVal p.2)) ++ "}"
 
 def showLiErr : LiErr → String
-  | .wrongOpcode => "WrongOpcode" | .missingResult => "MissingResult" | .wrongType => "Operand(WrongType)"
-  | .wrongEnumValue => "Operand(WrongEnumValue)" | .missing => "Operand(Missing)"
+  | .wrongOpcode => "WrongOpcode" | .missingResult => "MissingResult" | .operand .wrongType => "Operand(WrongType)"
+  | .operand .wrongEnumValue => "Operand(WrongEnumValue)" | .operand .missing => "Operand(Missing)"
 
 def showConvErr : ConvErr → String
   | .missingHeader => "MissingHeader" | .missingFunction => "MissingFunction" | .missingFunctionType => "MissingFunctionType"
